@@ -6,6 +6,10 @@ import "fmt"
 // passes through a value (child) edge, i.e. its expansion is infinite.
 var ErrValueCycle = fmt.Errorf("alias cycle through a value")
 
+// ErrBadKey is returned when a mapping key is not a scalar (an alias to a
+// mapping or sequence used as a key).
+var ErrBadKey = fmt.Errorf("non-scalar mapping key")
+
 // ErrTooLarge is returned when the expansion exceeds the node budget.
 var ErrTooLarge = fmt.Errorf("expansion too large")
 
@@ -89,6 +93,9 @@ func (r *resolver) rangeMap(n *Node, merged map[*Node]bool, f func(string, *Node
 		keys := map[string]bool{}
 		for _, p := range n.Map {
 			if !p.Merge {
+				if p.KeyNode != nil && !p.KeyNode.IsScalar() {
+					return ErrBadKey
+				}
 				keys[p.Key] = true
 			}
 		}
